@@ -3,6 +3,7 @@
 are content frames (queued for the consumer), and the name -> handler chain.
 
 Fail-closed: any shape other than
+    [if self._returned_content(frame_in): self._inbound.append(frame_in); return]
     if self.rpc.on_frame(frame_in): return
     if frame_in.name in CONTENT_FRAME: self._inbound.append(frame_in)
     elif frame_in.name == '<name>': <one call>
@@ -58,6 +59,20 @@ def table(repo):
     if fn is None:
         raise ValueError('Channel.on_frame not found')
     body = [s for s in fn.body if not (isinstance(s, ast.Expr) and isinstance(s.value, ast.Constant))]
+    ret_first = False
+    if len(body) == 3:
+        # if self._returned_content(frame_in): self._inbound.append(frame_in); return
+        r = body[0]
+        ok = isinstance(r, ast.If) and isinstance(r.test, ast.Call) and \
+            attr_name(r.test.func) == '_returned_content' and not r.orelse and \
+            len(r.body) == 2 and isinstance(r.body[1], ast.Return) and \
+            isinstance(r.body[0], ast.Expr) and isinstance(r.body[0].value, ast.Call) and \
+            attr_name(r.body[0].value.func) == 'append' and \
+            attr_name(r.body[0].value.func.value) == '_inbound'
+        if not ok:
+            raise ValueError('on_frame: unrecognised statement before the rpc test')
+        ret_first = True
+        body = body[1:]
     if len(body) != 2:
         raise ValueError('on_frame: expected the rpc test and one if/elif chain')
     first, chain = body
@@ -100,17 +115,19 @@ def table(repo):
     for n in content:
         if n not in NAMES:
             raise ValueError('unknown content frame %r' % n)
-    return [NAMES[n] for n in content], entries
+    return [NAMES[n] for n in content], entries, ret_first
 
 
 def translate(repo):
-    content, entries = table(repo)
+    content, entries, ret_first = table(repo)
     return '\n'.join([
         '(* GENERATED by translator/py2coq_dispatch.py from /repo - do not edit. *)',
         'From AV Require Import Lib.Base Model.Chan Model.Dispatch.', '',
         'Definition gen_content : list fname := [%s].' % '; '.join(content), '',
         'Definition gen_dispatch : list (fname * dact) := [%s].' % '; '.join(
-            '(%s, %s)' % e for e in entries), ''])
+            '(%s, %s)' % e for e in entries), '',
+        '(* content of a returned message is queued before the RPC layer is asked *)',
+        'Definition gen_return_content_first : bool := %s.' % ('true' if ret_first else 'false'), ''])
 
 
 if __name__ == '__main__':
